@@ -31,4 +31,5 @@ def build(u):
     u.impl(st, "ClnDatastore", ["add_payment_attempt", "fetch_payment_info", "mark_failed", "mark_succeeded"], "store", trait="Datastore")
     u.free_fn(st, "state_key", "store")
     u.free_fn(st, "attempt_key", "store")
+    u.auto_here(st, "store")
     u.raw("}\n} // verus!\nfn main() {}\n")
